@@ -10,6 +10,7 @@ import (
 	"fmt"
 	"go/ast"
 	"go/constant"
+	"go/printer"
 	"go/token"
 	"go/types"
 	"os"
@@ -604,6 +605,23 @@ func funcName(pkg *types.Package, fd *ast.FuncDecl) (string, string) {
 	return shortPkg(pkg) + "." + recv + "." + fd.Name.Name, recv
 }
 
+// recordExprs keeps the source text of the right-hand sides of the short variable declarations of a
+// function (the timer formulae), so that Lean can compare them with what the model assumes.
+func recordExprs(f *facts, name string, fd *ast.FuncDecl) {
+	ast.Inspect(fd.Body, func(n ast.Node) bool {
+		as, ok := n.(*ast.AssignStmt)
+		if !ok || as.Tok != token.DEFINE || len(as.Rhs) != 1 {
+			return true
+		}
+		if id, ok := as.Lhs[0].(*ast.Ident); ok {
+			var sb strings.Builder
+			_ = printer.Fprint(&sb, fset, as.Rhs[0])
+			f.Consts[name+"."+id.Name] = strings.Join(strings.Fields(sb.String()), " ")
+		}
+		return true
+	})
+}
+
 func main() {
 	flag.Parse()
 	if *out == "" {
@@ -649,6 +667,9 @@ func main() {
 					continue
 				}
 				name, _ := funcName(p.Types, fd)
+				if name == "session.Session.start" || name == "utils..NewTimer" {
+					recordExprs(f, name, fd)
+				}
 				ctor := fd.Recv == nil && (strings.HasPrefix(fd.Name.Name, "New") || strings.HasPrefix(fd.Name.Name, "new"))
 				w := &walker{info: p.TypesInfo, pkg: p.Types, f: f, fn: name, ctor: ctor, calls: map[string]bool{}}
 				w.walkBlock(fd.Body)
